@@ -51,6 +51,30 @@
 (*                         from qualcache[ns][name]                        *)
 (*   variants:  cacheSetDefault   qualcache[ns].setdefault(name, decl)     *)
 (*              cacheNotUpdated   p_mp_setQualifier leaves the cache alone *)
+(*                                                                         *)
+(* The statement holds for EVERY compiler object the text is given to,     *)
+(* whatever that compiler was asked to compile before - also text it       *)
+(* REJECTED.  Two more steps:                                              *)
+(*           fail(k)        a text that is not valid MOF is compiled and   *)
+(*                          rejected; k = where the compile fails:         *)
+(*                          "syntax" (grammar error at top level),         *)
+(*                          "dependency" (unknown superclass), "embdep" /  *)
+(*                          "embsyntax" (inside the NESTED compile of an   *)
+(*                          embedded instance value: undeclared property / *)
+(*                          grammar error in the nested text)              *)
+(*           inst(k)        the tomof() text of an instance ("plain", or   *)
+(*                          "emb" = with an embedded instance value) is    *)
+(*                          compiled; the instance must arrive in the      *)
+(*                          repository                                     *)
+(*   code-shaped model: compile_embedded_value sets parser.embedded_objects*)
+(*     to a list for the nested compile (`mode`): while it is a list,      *)
+(*     p_mp_createInstance APPENDS the compiled instance to it instead of  *)
+(*     creating it, and p_mp_createClass / p_mp_setQualifier refuse        *)
+(*     ("Compiler in mode to compile embedded ...").  The value before the *)
+(*     nested compile is restored in a `finally` clause.                   *)
+(*   variant:   embModeSticks     restored on the success path only: after *)
+(*                                ONE failed nested compile the compiler   *)
+(*                                stays in that mode                       *)
 (***************************************************************************)
 EXTENDS Naturals, Sequences, FiniteSets, TLC
 
@@ -110,31 +134,51 @@ Ver == << [t |-> "tA", f |-> "en"], [t |-> "tB", f |-> "en"],
           [t |-> "tB", f |-> "dis"], [t |-> "tA", f |-> "dis"] >>
 Versions == 1..Len(Ver)
 
-SessVariant == [cacheSetDefault : BOOLEAN, cacheNotUpdated : BOOLEAN]
-SessTree == [cacheSetDefault |-> FALSE, cacheNotUpdated |-> FALSE]
+SessVariant == [cacheSetDefault : BOOLEAN, cacheNotUpdated : BOOLEAN,
+                embModeSticks : BOOLEAN]
+SessTree == [cacheSetDefault |-> FALSE, cacheNotUpdated |-> FALSE,
+             embModeSticks |-> FALSE]
+
+FailKinds == {"syntax", "dependency", "embdep", "embsyntax"}
+EmbFailKinds == {"embdep", "embsyntax"}   \* the NESTED compile fails
+InstKinds == {"plain", "emb"}
 
 P(n, v) == [op |-> "prime", n |-> n, v |-> v]
 D(n, v) == [op |-> "declare", n |-> n, v |-> v]
 U(n) == [op |-> "use", n |-> n, v |-> 0]
+Fl(k) == [op |-> "fail", n |-> k, v |-> 0]
+In(k) == [op |-> "inst", n |-> k, v |-> 0]
 
 (* session state: repository, the compiler's cache, whether the compiler   *)
 (* has been used, and the outcome of the last `use`: want = version in the *)
-(* repository, got = version the compiled qualifier was typed with         *)
+(* repository, got = version the compiled qualifier was typed with;        *)
+(* mode = parser.embedded_objects is (still) a list; bad = the valid text  *)
+(* of the last step was rejected or its object did not arrive              *)
 Sess0 == [repo |-> [n \in QNames |-> 0], cache |-> [n \in QNames |-> 0],
-          compiled |-> FALSE, want |-> 0, got |-> 0]
+          compiled |-> FALSE, want |-> 0, got |-> 0, mode |-> FALSE,
+          bad |-> FALSE]
 
 Enabled(s, a) ==
   CASE a.op = "prime"   -> ~s.compiled /\ s.repo[a.n] = 0 /\ a.v \in Versions
     [] a.op = "declare" -> a.v \in Versions
     [] a.op = "use"     -> s.repo[a.n] # 0
+    [] a.op = "fail"    -> a.n \in FailKinds
+    [] a.op = "inst"    -> a.n \in InstKinds
     [] OTHER -> FALSE
 
 Step(s, a, v) ==
   CASE a.op = "prime" ->
          [s EXCEPT !.repo[a.n] = a.v]
+    [] a.op = "fail" ->
+         [s EXCEPT !.compiled = TRUE, !.bad = FALSE,
+                   !.mode = @ \/ (v.embModeSticks /\ a.n \in EmbFailKinds)]
+    [] a.op = "inst" ->          \* p_mp_createInstance: appended, not created
+         [s EXCEPT !.compiled = TRUE, !.bad = s.mode]
+    [] a.op \in {"declare", "use"} /\ s.mode ->  \* refused in embedded mode
+         [s EXCEPT !.compiled = TRUE, !.bad = TRUE]
     [] a.op = "declare" ->                       \* p_mp_setQualifier
          [s EXCEPT !.repo[a.n] = a.v,
-                   !.compiled = TRUE,
+                   !.compiled = TRUE, !.bad = FALSE,
                    !.cache[a.n] =
                       IF v.cacheNotUpdated THEN @
                       ELSE IF v.cacheSetDefault /\ @ # 0 THEN @
@@ -143,19 +187,20 @@ Step(s, a, v) ==
          LET c1 == IF s.cache[a.n] # 0 THEN s.cache
                    ELSE [m \in QNames |->
                            IF s.repo[m] # 0 THEN s.repo[m] ELSE s.cache[m]]
-         IN [s EXCEPT !.cache = c1, !.compiled = TRUE,
+         IN [s EXCEPT !.cache = c1, !.compiled = TRUE, !.bad = FALSE,
                       !.want = s.repo[a.n], !.got = c1[a.n]]
 
-UseOk(s) == s.want = 0 \/ Ver[s.got] = Ver[s.want]
+UseOk(s) == ~s.bad /\ (s.want = 0 \/ Ver[s.got] = Ver[s.want])
 
 RECURSIVE RunFrom(_, _, _, _)
-(* [wf, ok]: every step enabled; every `use` typed by the current version *)
+(* [wf, ok]: every step enabled; every `use` typed by the current version, *)
+(* every valid text accepted and its object in the repository              *)
 RunFrom(s, h, i, v) ==
   IF i > Len(h) THEN [wf |-> TRUE, ok |-> TRUE]
   ELSE IF ~Enabled(s, h[i]) THEN [wf |-> FALSE, ok |-> TRUE]
   ELSE LET s1 == Step(s, h[i], v)
            r == RunFrom(s1, h, i + 1, v)
-       IN [wf |-> r.wf, ok |-> r.ok /\ (h[i].op # "use" \/ UseOk(s1))]
+       IN [wf |-> r.wf, ok |-> r.ok /\ UseOk(s1)]
 Run(h, v) == RunFrom(Sess0, h, 1, v)
 
 (* the histories the driver runs on ONE real MOFCompiler in ONE namespace: *)
@@ -164,6 +209,19 @@ Run(h, v) == RunFrom(Sess0, h, 1, v)
 (* first declaration primed, and a redeclaration of a second qualifier     *)
 (* that got into the cache through EnumerateQualifiers                     *)
 Changed == {p \in Versions \X Versions : p[1] # p[2]}
+(* a rejected text BEFORE the round trip: every kind of failure followed by *)
+(* every kind of valid text (instance, declaration + class), at the start  *)
+(* of the compiler's life, after a primed declaration (cache still empty), *)
+(* and in the middle of a history of declarations, classes and instances   *)
+NextVer == {p \in Changed : p[2] = (p[1] % Len(Ver)) + 1}
+FailHistories ==
+  {<<Fl(k), In(e)>> : k \in FailKinds, e \in InstKinds}
+  \cup {<<Fl(k), D("QA", a), U("QA")>> : k \in FailKinds, a \in Versions}
+  \cup {<<P("QA", a), Fl(k), U("QA")>> : k \in FailKinds, a \in Versions}
+  \cup {<<In(e), Fl(k), In(f)>> : k \in FailKinds, e \in InstKinds,
+                                   f \in InstKinds}
+  \cup {<<D("QA", p[1]), U("QA"), Fl(k), D("QA", p[2]), U("QA"), In(e)>> :
+          p \in NextVer, k \in FailKinds, e \in InstKinds}
 Histories ==
   {<<D("QA", a), U("QA")>> : a \in Versions}
   \cup {<<D("QA", p[1]), D("QA", p[2]), U("QA")>> : p \in Changed}
@@ -175,5 +233,6 @@ Histories ==
           U("QA")>> : p \in Changed}
   \cup {<<D("QA", p[1]), D("QB", p[1]), D("QA", p[2]), U("QB"), U("QA")>> :
           p \in Changed}
+  \cup FailHistories
 HistCode(h) == [i \in DOMAIN h |-> <<h[i].op, h[i].n, h[i].v>>]
 =============================================================================
